@@ -23,8 +23,9 @@ type C01Plan struct {
 	After    [][]world.Key `json:"after"`  // ... and listed after the matching one
 	Delivery seam.Delivery `json:"delivery"`
 	Reads    lib.ReadSched `json:"reads"`
-	Warm     int           `json:"warm,omitempty"` // the identity objects first decrypt this many OTHER files to the same recipients (long-lived objects)
-	Via      int           `json:"via,omitempty"`  // 0: keys through the constructors; 1..3: through the text parsers (key files with comments / CRLF / no final newline, authorized_keys lines, PEM)
+	Warm     int           `json:"warm,omitempty"`     // the identity objects first decrypt this many OTHER files to the same recipients (long-lived objects)
+	SameObj  bool          `json:"same_obj,omitempty"` // a key listed more than once is listed as the SAME recipient value each time (recipients []age.Recipient{r, x, r})
+	Via      int           `json:"via,omitempty"`      // 0: keys through the constructors; 1..3: through the text parsers (key files with comments / CRLF / no final newline, authorized_keys lines, PEM)
 }
 
 type C01 struct{}
@@ -49,7 +50,7 @@ func (C01) Meta() core.Meta {
 		Real:        []string{"filippo.io/age Encrypt/Decrypt", "X25519/scrypt/ssh-ed25519/ssh-rsa recipients and identities", "armor", "internal/stream", "internal/format", "age.ParseRecipients / ParseIdentities, agessh.ParseRecipient / ParseIdentity (a third of the runs)"},
 		Stub:        []string{"destination recorder", "source with delivery schedule", "grease recipient", "logging identity wrapper", "crypto/rand.Reader (tape)"},
 		FaultKinds:  []string{},
-		Probes:      []string{"probe.mixed_types", "probe.duplicate_recipient", "probe.grease_stanza", "probe.scrypt", "probe.rsa", "probe.armor", "probe.len_on_chunk_boundary", "probe.nonmatching_before", "probe.nonmatching_after", "probe.multi_chunk", "probe.keys_through_text_parsers", "probe.identity_objects_reused_across_files"},
+		Probes:      []string{"probe.mixed_types", "probe.duplicate_recipient", "probe.grease_stanza", "probe.scrypt", "probe.rsa", "probe.armor", "probe.len_on_chunk_boundary", "probe.nonmatching_before", "probe.nonmatching_after", "probe.multi_chunk", "probe.keys_through_text_parsers", "probe.identity_objects_reused_across_files", "probe.same_recipient_value_listed_twice"},
 	}
 }
 
@@ -101,6 +102,7 @@ func (C01) Generate(r *core.RNG, tier string, idx uint64) interface{} {
 	if r.Chance(1, 4) {
 		p.Warm = r.Range(1, 2)
 	}
+	p.SameObj = r.Chance(1, 2)
 	return p
 }
 
@@ -122,6 +124,11 @@ func (C01) Shrinks(plan interface{}) []interface{} {
 	if p.Via != 0 {
 		q := cp()
 		q.Via = 0
+		out = append(out, q)
+	}
+	if p.SameObj {
+		q := cp()
+		q.SameObj = false
 		out = append(out, q)
 	}
 	if p.Warm != 0 {
@@ -204,17 +211,27 @@ func (e C01) Execute(plan interface{}, c *core.Ctx) (verdict *core.Verdict) {
 	}
 	d := seam.NewDisk(nil, nil)
 	var res *lib.EncResult
-	if p.Via > 0 {
+	if p.Via > 0 || p.SameObj {
 		// recipients and identities come out of the text parsers (key files, authorized_keys lines, PEM)
 		var recips []age.Recipient
+		objs := map[string]age.Recipient{}
 		for _, r := range p.File.Recips {
 			if r.Key != nil {
-				recips = append(recips, world.RecipientVia(*r.Key, p.Via))
+				id := fmt.Sprintf("%s/%d", r.Key.String(), r.Key.WF)
+				if p.SameObj && objs[id] != nil {
+					recips = append(recips, objs[id])
+					c.Stats.Inc("probe.same_recipient_value_listed_twice")
+					continue
+				}
+				objs[id] = world.RecipientVia(*r.Key, p.Via)
+				recips = append(recips, objs[id])
 			} else {
 				recips = append(recips, lib.BuildRecipients([]lib.Recip{r})[0])
 			}
 		}
-		c.Stats.Inc("probe.keys_through_text_parsers")
+		if p.Via > 0 {
+			c.Stats.Inc("probe.keys_through_text_parsers")
+		}
 		res = lib.EncryptWith(recips, p.File, p.Segs, d, seam.NewTape(p.File.Tape), nil)
 	} else {
 		res = lib.Encrypt(p.File, p.Segs, d, seam.NewTape(p.File.Tape), nil)
